@@ -323,6 +323,142 @@ def facts_apply(mod, em):
 
 
 # ------------------------------------------------------------------ focal._mean_numpy / _equal_numpy / mean
+
+def mean_dispatch_fact(mod):
+    """the glue `focal._mean(data, excludes)`: one ArrayTypeFunctionMapping; the backend function it selects is called
+    exactly once, outside any control flow, with (the data, excludes), and its value is what `_mean` returns
+    -> (ok, source text, why not)"""
+    from facts_dask import local_bindings
+    try:
+        f = find_func(mod, "_mean")
+        if f is None:
+            raise NoMatch("_mean not found")
+        params = [a.arg for a in f.args.args]
+        if len(params) != 2 or f.args.vararg or f.args.kwarg or f.args.kwonlyargs:
+            raise NoMatch("signature of _mean")
+        data, excl = params
+        if any(isinstance(n, (ast.For, ast.While, ast.ListComp, ast.GeneratorExp, ast.SetComp, ast.DictComp, ast.If,
+                              ast.IfExp, ast.Try)) for n in ast.walk(f)):
+            raise NoMatch("control flow in _mean")
+        maps = [n for n in ast.walk(f) if isinstance(n, ast.Call) and call_name(n.func) == "ArrayTypeFunctionMapping"]
+        if len(maps) != 1:
+            raise NoMatch("ArrayTypeFunctionMapping calls")
+        binds = local_bindings(f)
+        mnames = [k for k, vs in binds.items() if len(vs) == 1 and vs[0] is maps[0]]
+        # the selection `mapper(agg)` (or the mapping called directly), possibly bound once to a local name
+        def is_selection(n):
+            return isinstance(n, ast.Call) and len(n.args) == 1 and not n.keywords and \
+                ((isinstance(n.func, ast.Name) and n.func.id in mnames) or n.func is maps[0])
+        sel_names = [k for k, vs in binds.items() if len(vs) == 1 and is_selection(vs[0])]
+        uses = [n for n in ast.walk(f) if isinstance(n, ast.Call)
+                and (is_selection(n.func) or (isinstance(n.func, ast.Name) and n.func.id in sel_names))]
+        if len(uses) != 1:
+            raise NoMatch(f"{len(uses)} calls of the selected backend function")
+        use = uses[0]
+        if use.keywords or len(use.args) != 2:
+            raise NoMatch("arguments of the backend call")
+        # first argument: the data (directly, or `.data` of a DataArray built from it)
+        a0 = use.args[0]
+        wraps = [k for k, vs in binds.items() if len(vs) == 1 and isinstance(vs[0], ast.Call)
+                 and call_name(vs[0].func) == "DataArray" and len(vs[0].args) == 1 and not vs[0].keywords
+                 and isinstance(vs[0].args[0], ast.Name) and vs[0].args[0].id == data]
+        ok0 = (isinstance(a0, ast.Name) and a0.id == data) or \
+            (isinstance(a0, ast.Attribute) and a0.attr == "data" and isinstance(a0.value, ast.Name) and a0.value.id in wraps)
+        if not ok0 or not (isinstance(use.args[1], ast.Name) and use.args[1].id == excl):
+            raise NoMatch("the backend is not called with (data, excludes)")
+        if len(binds.get(data, [])) or len(binds.get(excl, [])):
+            raise NoMatch("parameters rebound")
+        rets = [n for n in ast.walk(f) if isinstance(n, ast.Return)]
+        if len(rets) != 1:
+            raise NoMatch("returns")
+        rv = rets[0].value
+        if rv is use:
+            pass
+        elif isinstance(rv, ast.Name) and len(binds.get(rv.id, [])) == 1 and binds[rv.id][0] is use:
+            pass
+        else:
+            raise NoMatch("the backend's value is not what _mean returns")
+        return True, ast.unparse(use), ""
+    except NoMatch as ex:
+        return False, None, str(ex)
+
+
+def mean_loop_fact(mod):
+    """the wrapper `focal.mean`: is the result `passes` applications of the one-pass function to the (float) raster?
+
+        out = agg.data.astype(float)            # or `agg.data`; any name for `out`
+        ...                                     # statements that do not touch `out`
+        for <v> in range(passes):               # range(passes) / range(0, passes) / range(0, passes, 1)
+            out = _mean(out, <excludes ...>)    # fed back; the only call of the one-pass function in `mean`
+        return DataArray(out, ...)              # the iterated value is what is returned
+
+    -> (ok, source text, why not).  Anything else (loop moved into a helper / a backend, different trip count, result
+    not fed back, extra calls of the one-pass function, `out` rebound after the loop) is reported as not recognised."""
+    f = find_func(mod, "mean")
+    if f is None:
+        return False, None, "focal.mean not found"
+    params = [a.arg for a in f.args.args]
+    if len(params) < 2 or "passes" not in params:
+        return False, None, "no `passes` parameter"
+    agg = params[0]
+    body = [st for st in f.body if not (isinstance(st, ast.Expr) and isinstance(st.value, ast.Constant))]  # docstring
+    loops = [i for i, st in enumerate(body) if isinstance(st, (ast.For, ast.While))]
+    if len(loops) != 1 or not isinstance(body[loops[0]], ast.For):
+        return False, None, f"{len(loops)} loops at the top level of mean()"
+    li = loops[0]
+    lp = body[li]
+    try:
+        lo, hi = range_args(lp.iter)
+    except NoMatch as ex:
+        return False, None, str(ex)
+    if not (isinstance(lo, ast.Constant) and lo.value == 0 and isinstance(hi, ast.Name) and hi.id == "passes"):
+        return False, None, f"trip count {ast.unparse(lp.iter)}"
+    if lp.orelse or len(lp.body) != 1 or not isinstance(lp.body[0], ast.Assign) or len(lp.body[0].targets) != 1:
+        return False, None, "loop body is not a single assignment"
+    st = lp.body[0]
+    if not (isinstance(st.targets[0], ast.Name) and isinstance(st.value, ast.Call) and isinstance(st.value.func, ast.Name)
+            and len(st.value.args) + len(st.value.keywords) == 2 and st.value.args
+            and isinstance(st.value.args[0], ast.Name) and st.value.args[0].id == st.targets[0].id):
+        return False, None, "loop body is not `out = <one-pass>(out, excludes)`"
+    out, one = st.targets[0].id, st.value.func.id
+    if one != "_mean":
+        return False, None, f"one-pass function is {one}"
+    second = st.value.args[1] if len(st.value.args) == 2 else st.value.keywords[0].value
+    if "excludes" not in {n.id for n in ast.walk(second) if isinstance(n, ast.Name)}:
+        return False, None, "second argument does not carry `excludes`"
+    if isinstance(lp.target, ast.Name) and lp.target.id in (out, "passes", "excludes"):
+        return False, None, "loop variable shadows a name used in the body"
+    if sum(1 for n in ast.walk(f) if isinstance(n, ast.Call) and call_name(n.func) == one) != 1:
+        return False, None, "more than one call of the one-pass function"
+    # passes / excludes / out are not rebound elsewhere (out: exactly once before the loop)
+    stores = {}
+    for n in ast.walk(f):
+        if isinstance(n, ast.Name) and isinstance(n.ctx, (ast.Store, ast.Del)):
+            stores[n.id] = stores.get(n.id, 0) + 1
+    if stores.get("passes", 0) != 0:
+        return False, None, "`passes` is rebound"
+    if stores.get(out, 0) != 2:
+        return False, None, f"`{out}` is bound {stores.get(out, 0)} times"
+    init = [s2 for s2 in body[:li] if isinstance(s2, ast.Assign) and len(s2.targets) == 1
+            and isinstance(s2.targets[0], ast.Name) and s2.targets[0].id == out]
+    if len(init) != 1:
+        return False, None, f"`{out}` is not initialised before the loop"
+    iv = init[0].value
+    data_attr = f"{agg}.data"
+    if not (ast.unparse(iv) == data_attr
+            or (isinstance(iv, ast.Call) and isinstance(iv.func, ast.Attribute) and iv.func.attr == "astype"
+                and ast.unparse(iv.func.value) == data_attr)):
+        return False, None, f"initial value {ast.unparse(iv)}"
+    rets = [n for n in ast.walk(f) if isinstance(n, ast.Return)]
+    if len(rets) != 1 or body[-1] is not rets[0]:
+        return False, None, "not exactly one return at the end"
+    rv = rets[0].value
+    if not (isinstance(rv, ast.Call) and call_name(rv.func) == "DataArray" and rv.args
+            and isinstance(rv.args[0], ast.Name) and rv.args[0].id == out):
+        return False, None, "the iterated value is not what is returned"
+    return True, (ast.unparse(init[0]) + "; " + ast.unparse(lp).replace("\n", "; ") + "; return DataArray(" + out + ", ...)"), ""
+
+
 def facts_mean(mod, em):
     names_int = ["mean_row_lo", "mean_row_hi", "mean_col_lo", "mean_col_hi"]
     f = find_func(mod, "_mean_numpy")
@@ -376,10 +512,15 @@ def facts_mean(mod, em):
                     eq_fn = t.test.func.id
         if not ok_loop:
             raise NoMatch("exclusion loop")
-        if not (isinstance(if_st, ast.If) and isinstance(if_st.test, ast.UnaryOp) and isinstance(if_st.test.op, ast.Not)
-                and isinstance(if_st.test.operand, ast.Name) and if_st.test.operand.id == flag):
+        # `if not exclude: <mean> else: <copy>`  or, with the branches swapped, `if exclude: <copy> else: <mean>`
+        if isinstance(if_st, ast.If) and isinstance(if_st.test, ast.UnaryOp) and isinstance(if_st.test.op, ast.Not) \
+                and isinstance(if_st.test.operand, ast.Name) and if_st.test.operand.id == flag:
+            mean_body, copy_body = if_st.body, if_st.orelse
+        elif isinstance(if_st, ast.If) and isinstance(if_st.test, ast.Name) and if_st.test.id == flag:
+            mean_body, copy_body = if_st.orelse, if_st.body
+        else:
             raise NoMatch("if not exclude")
-        loc = simple_assigns(if_st.body)
+        loc = simple_assigns(mean_body)
         ix = IX(env)
         for nm, val in loc.items():
             try:
@@ -398,7 +539,7 @@ def facts_mean(mod, em):
             raise NoMatch("window slice")
         wname, wsub = sl
         s0, s1 = wsub.slice.elts
-        store = [s for s in if_st.body if isinstance(s, ast.Assign) and isinstance(s.targets[0], ast.Subscript)]
+        store = [s for s in mean_body if isinstance(s, ast.Assign) and isinstance(s.targets[0], ast.Subscript)]
         if len(store) != 1:
             raise NoMatch("store of the mean")
         _, oy, ox = idx2(store[0].targets[0])
@@ -414,8 +555,8 @@ def facts_mean(mod, em):
         em.define("mean_reducer", "", "String", lean_str(call_name(v.func) or "?"), ast.unparse(store[0]))
         # else: out[y, x] = data[y, x]
         pt = False
-        if len(if_st.orelse) == 1 and isinstance(if_st.orelse[0], ast.Assign):
-            e = if_st.orelse[0]
+        if len(copy_body) == 1 and isinstance(copy_body[0], ast.Assign):
+            e = copy_body[0]
             try:
                 _, a, b = idx2(e.targets[0])
                 _, c, d = idx2(e.value, data)
@@ -423,7 +564,7 @@ def facts_mean(mod, em):
             except NoMatch:
                 pt = False
         em.define("mean_excluded_pass_through", "", "Bool", "true" if pt else "false",
-                  "else: " + (ast.unparse(if_st.orelse[0]) if if_st.orelse else "<missing>"))
+                  "else: " + (ast.unparse(copy_body[0]) if copy_body else "<missing>"))
         em.define("mean_equal_fn", "", "String", lean_str(eq_fn), ast.unparse(loop_st.body[0].test))
         em.define("mean_kernel_ok", "", "Bool", "true", "all patterns of focal._mean_numpy recognised")
     except NoMatch as ex:
@@ -463,29 +604,13 @@ def facts_mean(mod, em):
         em.define("equal_numpy_cond", "", "C", "C.ff", None)
         em.define("equal_numpy_args", "", "String × String", '("?", "?")', None)
 
-    # mean(): out = agg.data.astype(float); for i in range(passes): out = _mean(out, tuple(excludes))
-    f = find_func(mod, "mean")
-    ok = False
-    src = None
-    if f is not None:
-        loops = [s for s in f.body if isinstance(s, ast.For)]
-        if len(loops) == 1:
-            lp = loops[0]
-            try:
-                lo, hi = range_args(lp.iter)
-                if isinstance(lo, ast.Constant) and lo.value == 0 and isinstance(hi, ast.Name) and hi.id == "passes" \
-                        and len(lp.body) == 1 and isinstance(lp.body[0], ast.Assign) \
-                        and isinstance(lp.body[0].targets[0], ast.Name) and isinstance(lp.body[0].value, ast.Call) \
-                        and call_name(lp.body[0].value.func) == "_mean" and len(lp.body[0].value.args) == 2 \
-                        and isinstance(lp.body[0].value.args[0], ast.Name) \
-                        and lp.body[0].value.args[0].id == lp.body[0].targets[0].id \
-                        and "excludes" in ast.unparse(lp.body[0].value.args[1]) \
-                        and sum(1 for n in ast.walk(f) if isinstance(n, ast.Call) and call_name(n.func) == "_mean") == 1:
-                    ok = True
-                    src = ast.unparse(lp).replace("\n", "; ")
-            except NoMatch:
-                ok = False
-    em.define("mean_iterates_passes", "", "Bool", "true" if ok else "false", src)
+    ok, src, why = mean_loop_fact(mod)
+    if ok:
+        ok, dsrc, why = mean_dispatch_fact(mod)
+        src = f"{src}   with _mean: return {dsrc}" if ok else None
+    if not ok:
+        em.rep["mean_iterates_passes_error"] = why
+    em.define("mean_iterates_passes", "", "Bool", "true" if ok else "false", src if ok else None)
 
 
 # ------------------------------------------------------------------ built-in reducers, focal_stats table
@@ -582,24 +707,56 @@ def facts_stats(mod, em):
 
 
 # ------------------------------------------------------------------ hotspots wrapper
+class _Inline(ast.NodeTransformer):
+    """replace local names bound exactly once (top-level `a = e`) by their value, parameters by p0, p1, ..."""
+
+    def __init__(self, binds, params):
+        self.binds, self.params, self.depth = binds, params, 0
+
+    def visit_Name(self, n):
+        if isinstance(n.ctx, ast.Load):
+            if n.id in self.params:
+                return ast.Name(id=f"p{self.params.index(n.id)}", ctx=ast.Load())
+            if n.id in self.binds and self.depth < 12:
+                self.depth += 1
+                out = self.visit(ast.parse(ast.unparse(self.binds[n.id]), mode="eval").body)
+                self.depth -= 1
+                return out
+        return n
+
+
+def inlined(func, expr):
+    """canonical text of `expr` inside `func`: single-assignment locals inlined, parameters renamed positionally --
+    invariant under renaming of locals / parameters and under introducing or removing temporaries"""
+    counts, binds = {}, {}
+    for n in ast.walk(func):
+        if isinstance(n, ast.Name) and isinstance(n.ctx, (ast.Store, ast.Del)):
+            counts[n.id] = counts.get(n.id, 0) + 1
+    for st in func.body:
+        if isinstance(st, ast.Assign) and len(st.targets) == 1 and isinstance(st.targets[0], ast.Name) \
+                and counts.get(st.targets[0].id) == 1:
+            binds[st.targets[0].id] = st.value
+    params = [a.arg for a in func.args.args]
+    tree = _Inline(binds, params).visit(ast.parse(ast.unparse(expr), mode="eval").body)
+    return ast.unparse(ast.fix_missing_locations(tree))
+
+
 def facts_hotspots(mod, em):
     f = find_func(mod, "_hotspots_numpy")
     norm = z = guard = False
-    if f is not None:
-        a = simple_assigns(f.body)
-        m = a.get("mean_array")
-        if isinstance(m, ast.Call) and call_name(m.func) == "convolve_2d" and len(m.args) == 2 \
-                and ast.unparse(m.args[0]) == "data" and ast.unparse(m.args[1]) == "kernel / kernel.sum()":
-            norm = True
-        if ast.unparse(a.get("global_mean", ast.Constant(0))) == "np.nanmean(data)" \
-                and ast.unparse(a.get("global_std", ast.Constant(0))) == "np.nanstd(data)" \
-                and ast.unparse(a.get("z_array", ast.Constant(0))) == "(mean_array - global_mean) / global_std" \
-                and ast.unparse(a.get("out", ast.Constant(0))) == "_calc_hotspots_numpy(z_array)" \
-                and ast.unparse(a.get("data", ast.Constant(0))) == "raster.data.astype(np.float32)":
-            z = True
+    if f is not None and len(f.args.args) == 2:
+        D = "p0.data.astype(np.float32)"
+        conv = f"convolve_2d({D}, p1 / p1.sum())"
+        want = f"_calc_hotspots_numpy(({conv} - np.nanmean({D})) / np.nanstd({D}))"
+        rets = [n for n in ast.walk(f) if isinstance(n, ast.Return)]
+        if len(rets) == 1 and f.body[-1] is rets[0] and rets[0].value is not None:
+            got = inlined(f, rets[0].value)
+            norm = conv in got
+            z = got == want
         for st in f.body:
-            if isinstance(st, ast.If) and ast.unparse(st.test) == "global_std == 0" and st.body \
-                    and isinstance(st.body[0], ast.Raise) and "ZeroDivisionError" in ast.unparse(st.body[0]):
+            if isinstance(st, ast.If) and not st.orelse and st.body and isinstance(st.body[0], ast.Raise) \
+                    and "ZeroDivisionError" in ast.unparse(st.body[0]) \
+                    and inlined(f, st.test) in (f"np.nanstd({D}) == 0", f"0 == np.nanstd({D})"):
                 guard = True
     em.define("hotspots_kernel_normalised", "", "Bool", "true" if norm else "false",
               "mean_array = convolve_2d(data, kernel / kernel.sum())" if norm else None)
